@@ -214,7 +214,7 @@ def _masked_empty(shape: tuple[int, ...]) -> np.ndarray:
     # sets the elements to 0.0.
     x: np.ndarray = np.empty((1,), dtype=object)
     x[0] = np.ma.masked
-    return np.tile(x, shape)
+    return np.tile(x, shape).reshape(shape)  # np.tile(x, ()) has shape (1,)
 
 
 class SharedMemoryDictArray(DictArray):
